@@ -480,12 +480,47 @@ func TestVerifC06(t *testing.T) {
 				r.Violate("parse.count-mismatch", "Count differs from the reference decoder: "+d, verifrt.CaseReplay(i, map[string]any{"input": saveInput(r, "C06", data)}))
 			}
 			r.HitN("records-compared", len(cf.Records))
+			if i%4 == 1 {
+				// the exported path used by countertest / gotelemetry: ReadFile (mmap based)
+				p := writeTemp(dir, "rf.v1.count", data)
+				var ctrs, stacks map[string]uint64
+				var rerr error
+				verifrt.SetTickBudget(parseTickBudget(len(data)))
+				pv, stack := guarded(func() { ctrs, stacks, rerr = ReadFile(p) })
+				over := verifrt.TickExceeded()
+				verifrt.SetTickBudget(0)
+				switch {
+				case over || pv != nil:
+					r.Violate("readfile.total", fmt.Sprintf("ReadFile did not return normally on a well-formed file (loop=%v): %v\n%.600s", over, pv, stack), verifrt.CaseReplay(i, map[string]any{"input": saveInput(r, "C06", data)}))
+				case rerr != nil:
+					r.Violate("readfile.rejects-wellformed", "ReadFile rejects a well-formed file: "+rerr.Error(), verifrt.CaseReplay(i, map[string]any{"input": saveInput(r, "C06", data)}))
+				default:
+					want := expectCounts(cf)
+					got := map[string]uint64{}
+					for k, v := range ctrs {
+						if strings.Contains(k, "\n") {
+							r.Violate("readfile.stack-among-counters", fmt.Sprintf("ReadFile returned the stack counter %q among the plain counters", trunc40(k)), verifrt.CaseReplay(i, nil))
+						}
+						got[k] = v
+					}
+					for k, v := range stacks {
+						if !strings.Contains(k, "\n") {
+							r.Violate("readfile.counter-among-stacks", fmt.Sprintf("ReadFile returned the plain counter %q among the stack counters", trunc40(k)), verifrt.CaseReplay(i, nil))
+						}
+						got[k] = v
+					}
+					if d := diffCounts(got, want); d != "" {
+						r.Violate("readfile.count-mismatch", "ReadFile differs from the reference decoder: "+d, verifrt.CaseReplay(i, map[string]any{"input": saveInput(r, "C06", data)}))
+					}
+					r.Hit("readfile-compared")
+				}
+			}
 			if k < 2 && b == 0 {
 				r.Sample(map[string]any{"case": i, "class": class, "bytes": len(data), "records": len(cf.Records), "parse_ticks": o.ticks})
 			}
 		}
 	})
-	res.Require("random", "wellformed-ref", "wellformed-lib", "damage:cycle-2", "damage:next-self-stack", "damage:hdrlen-small", "accepted", "rejected", "ref-accepts")
+	res.Require("readfile-compared", "random", "wellformed-ref", "wellformed-lib", "damage:cycle-2", "damage:next-self-stack", "damage:hdrlen-small", "accepted", "rejected", "ref-accepts")
 	if err := res.Write(); err != nil {
 		t.Fatal(err)
 	}
